@@ -10,6 +10,7 @@ import (
 
 func init() {
 	extraOps["resolve"] = opResolve
+	extraOps["desc"] = opDesc
 	extraOps["span"] = opSpan
 	extraOps["bitset"] = opBitset
 	extraOps["descmap"] = opDescMap
@@ -37,6 +38,29 @@ func opResolve(a []*sx) string {
 		return "(harness-error " + hexs("unknown type") + ")"
 	}
 	s, err := hkResolve(t)
+	if err != nil {
+		if strings.HasPrefix(err.Error(), "panic:") {
+			return panicStr(err.Error())
+		}
+		return "(err other " + hexs(err.Error()) + ")"
+	}
+	return "(ok " + s + ")"
+}
+
+// desc TYPE probe...: what desc.go computes once for the type
+func opDesc(a []*sx) string {
+	if !hooksAvailable {
+		return noHooks
+	}
+	t, ok := verifTypes[a[0].atom]
+	if !ok {
+		return "(harness-error " + hexs("unknown type") + ")"
+	}
+	probes := make([]int, 0, len(a))
+	for _, x := range a[1:] {
+		probes = append(probes, atoi(x))
+	}
+	s, err := hkDesc(t, probes)
 	if err != nil {
 		if strings.HasPrefix(err.Error(), "panic:") {
 			return panicStr(err.Error())
